@@ -56,6 +56,8 @@ type decideSpec struct {
 	okDefs map[string]string
 	// translate the body of the function's first `for` loop (one iteration) instead of the function body
 	loopBody bool
+	// with loopBody: the range loop over this expression (printed) instead of the first loop
+	loopOver string
 }
 
 type decideTr struct {
@@ -497,6 +499,12 @@ func (t *decideTr) stmts(ss []ast.Stmt, fall string) (string, error) {
 		}
 		return fmt.Sprintf("(if %s then %s\n  else %s)", cond, thn, els), nil
 	case *ast.DeclStmt:
+		// var x T  (assigned on every path before it is read: the assignments are what is translated)
+		if gd, ok := x.Decl.(*ast.GenDecl); ok && gd.Tok == token.VAR && len(gd.Specs) == 1 {
+			if vs, ok := gd.Specs[0].(*ast.ValueSpec); ok && len(vs.Values) == 0 {
+				return t.stmts(rest, fall)
+			}
+		}
 		// var acc T = <expression>
 		if gd, ok := x.Decl.(*ast.GenDecl); ok && gd.Tok == token.VAR && len(gd.Specs) == 1 {
 			if vs, ok := gd.Specs[0].(*ast.ValueSpec); ok && len(vs.Names) == 1 && len(vs.Values) == 1 {
@@ -608,9 +616,13 @@ func translateDecide(src string, spec *decideSpec) (string, error) {
 				}
 				switch f := n.(type) {
 				case *ast.ForStmt:
-					list, fall = f.Body.List, "[]"
+					if spec.loopOver == "" {
+						list, fall = f.Body.List, "[]"
+					}
 				case *ast.RangeStmt:
-					list, fall = f.Body.List, "[]"
+					if spec.loopOver == "" || (&decideTr{fset: fset}).text(f.X) == spec.loopOver {
+						list, fall = f.Body.List, "[]"
+					}
 				case *ast.FuncLit:
 					return false
 				}
